@@ -44,6 +44,9 @@ ACTIONS = {
 
 
 def run(ctx: Ctx) -> None:
+    from .shared import connection_propagation
+
+    connection_propagation(ctx, "R-C16-TYPESTATE")  # a handle acts on the broker it was taken from
     n_actions = 0
     for action, (op, cat_guard, budget_guard) in ACTIONS.items():
         f = ctx.func(f"{C.MESSAGE}.{action}")
